@@ -84,4 +84,5 @@ PROPS = {
 
 HOOK_COMMITS = [
     "e302802 verif hook: H4 traced RwLock/Mutex wrappers and seeded scheduling points in emmylua_ls (feature verif)",
+    "30c803d verif hook: rustfmt import order of the cfg-switched lock imports (H4)",
 ]
